@@ -54,11 +54,13 @@ func VerifC08NativeMatrix() {
 			}
 			for pname, body := range positions {
 				prof := "#%Validation Profile 1.0\nprofile: T\nviolation:\n  - v1\nvalidations:\n  v1:\n    message: m\n    targetClass: apiContract.WebAPI\n" + body + "\n"
-				_, err := CompileProfile(prof, false, nil)
-				if err == nil {
-					fmt.Printf("ACCEPTED builtin=%s syntax=%s position=%s\n", name, sname, pname)
+				for _, debug := range []bool{false, true} {
+					_, err := CompileProfile(prof, debug, nil)
+					if err == nil {
+						fmt.Printf("ACCEPTED builtin=%s syntax=%s position=%s debug=%v\n", name, sname, pname, debug)
+					}
+					v.Assert("C08.rejected."+name, err != nil)
 				}
-				v.Assert("C08.rejected."+name, err != nil)
 			}
 			// hidden in a helper function of rego_extensions
 			helper := "helper(x) = y {\n  y := " + call + "\n}"
